@@ -1,8 +1,11 @@
 """Build, run, diff, classify, shrink, report (DESIGN.md §3, §5, §7)."""
 import concurrent.futures as cf
+import contextlib
+import fcntl
 import hashlib
 import json
 import os
+import random
 import re
 import shutil
 import subprocess
@@ -26,6 +29,90 @@ CXXFLAGS = ["-std=c++17", "-O0", "-fsanitize=address,undefined", "-fno-sanitize=
 
 def sh(cmd, **kw):
     return subprocess.run(cmd, stdout=subprocess.PIPE, stderr=subprocess.STDOUT, text=True, **kw)
+
+
+# ------------------------------------------------------------------------------------------ machine-wide job control
+# Several checks may run at the same time (all twenty quick commands started at once is the normal case).  Each check has a
+# pool of NPROC worker threads; without a machine-wide limit twenty checks start 320 compilers, the kernel's OOM killer
+# terminates some of them and a killed compiler is not evidence about the library.  Every heavy child process (compiler,
+# harness binary, model driver, lean) therefore runs while holding one of SLOTS advisory file locks shared by all checks.
+def _mem_gb():
+    try:
+        for l in open("/proc/meminfo"):
+            if l.startswith("MemAvailable:"):
+                return int(l.split()[1]) // (1024 * 1024)
+    except OSError:
+        pass
+    return 8
+
+
+SLOTS = max(2, min(NPROC, int(os.environ.get("VERIF_JOBS", "0")) or NPROC))
+SLOT_DIR = os.path.join(CACHE, "slots")
+
+
+@contextlib.contextmanager
+def slot():
+    os.makedirs(SLOT_DIR, exist_ok=True)
+    n = max(2, min(SLOTS, _mem_gb() // 2 or 1))  # a harness translation unit needs well under 1 GB; keep a factor of two
+    start = random.randrange(n)
+    fd = None
+    delay = 0.01
+    while fd is None:
+        for i in range(n):
+            f = os.open(os.path.join(SLOT_DIR, "%02d" % ((start + i) % n)), os.O_CREAT | os.O_RDWR, 0o644)
+            try:
+                fcntl.flock(f, fcntl.LOCK_EX | fcntl.LOCK_NB)
+                fd = f
+                break
+            except OSError:
+                os.close(f)
+        if fd is None:
+            time.sleep(delay + random.random() * delay)
+            delay = min(delay * 1.5, 0.2)
+    try:
+        yield
+    finally:
+        os.close(fd)  # closing the descriptor releases the lock
+
+
+@contextlib.contextmanager
+def file_lock(path):
+    """exclusive advisory lock used to build one artefact once when several checks want it at the same time"""
+    os.makedirs(os.path.dirname(path), exist_ok=True)
+    f = os.open(path, os.O_CREAT | os.O_RDWR, 0o644)
+    try:
+        fcntl.flock(f, fcntl.LOCK_EX)
+        yield
+    finally:
+        os.close(f)
+
+
+# A compiler that was killed, ran out of memory or disk, or crashed says nothing about the translation unit: such a result is
+# retried and never cached; only a diagnosed error of the program text counts as "does not compile".
+TRANSIENT = re.compile(r"Killed signal|terminated program|internal compiler error|[Cc]annot allocate memory|virtual memory exhausted|"
+                       r"out of memory|std::bad_alloc|Resource temporarily unavailable|No space left on device|"
+                       r"[Cc]annot fork|vfork|Bus error|Segmentation fault|Input/output error")
+
+
+def transient(returncode, output):
+    if returncode == 0:
+        return False
+    if returncode < 0:
+        return True
+    return bool(TRANSIENT.search(output or "")) or not re.search(r"\berror\b", output or "")
+
+
+def gxx(cmd, tries=6):
+    """run a compiler (or any build command) under a machine-wide slot; transient failures are retried with back-off"""
+    r = None
+    for attempt in range(tries):
+        with slot():
+            r = sh(cmd)
+        if not transient(r.returncode, r.stdout):
+            return r
+        time.sleep(min(30, 2 ** attempt) * (0.5 + random.random()))
+    r.transient = True
+    return r
 
 
 def file_hash(paths):
@@ -67,7 +154,13 @@ def build_lean():
         if r.returncode != 0:
             _lean_built["r"] = (False, "translator failed:\n" + log)
             return _lean_built["r"]
-    r = sh(["lake", "build"], cwd=LEAN)
+    # one lake at a time in this package directory (concurrent checks share lean/.lake); retried when lake itself was killed
+    for attempt in range(4):
+        with file_lock(os.path.join(CACHE, "lake.lock")), slot():
+            r = sh(["lake", "build"], cwd=LEAN)
+        if r.returncode == 0 or not (r.returncode < 0 or TRANSIENT.search(r.stdout or "")):
+            break
+        time.sleep(2 ** attempt)
     log += r.stdout
     ok = r.returncode == 0 and os.path.exists(DRIVER)
     _lean_built["r"] = (ok, log + "\n[lake build %.1fs]" % (time.time() - t0))
@@ -102,7 +195,12 @@ def audit(theorems, files):
     os.makedirs(CACHE, exist_ok=True)
     with open(tmp, "w") as f:
         f.write(src)
-    r = sh(["lake", "env", "lean", tmp], cwd=LEAN)
+    for attempt in range(4):
+        with slot():
+            r = sh(["lake", "env", "lean", tmp], cwd=LEAN)
+        if r.returncode >= 0 and not TRANSIENT.search(r.stdout or ""):
+            break
+        time.sleep(2 ** attempt)
     os.remove(tmp)
     out = r.stdout
     discharged = 0
@@ -125,13 +223,38 @@ def leanchecker(module):
     """replay the compiled module through Lean's independent checker; 'ok' or the tail of its output"""
     if not shutil.which("leanchecker"):
         return "ok (leanchecker not installed: skipped)"
-    r = sh(["lake", "env", "leanchecker", module], cwd=LEAN)
+    for attempt in range(3):
+        with slot():
+            r = sh(["lake", "env", "leanchecker", module], cwd=LEAN)
+        if r.returncode >= 0 and not TRANSIENT.search(r.stdout or ""):
+            break
+        time.sleep(2 ** attempt)
     return "ok" if r.returncode == 0 else (r.stdout or "")[-400:]
 
 
 # ------------------------------------------------------------------------------------------ C++ side
 def cfg_hash(cfg):
     return hashlib.sha256(cfg.key().encode()).hexdigest()[:12]
+
+
+INFRA = []  # artefacts that could not be built for reasons unrelated to the program text (reported, never a violation)
+
+
+def cached_error(path):
+    """a cached compiler diagnosis, or None; results of killed / crashed compilers are discarded"""
+    if not os.path.exists(path):
+        return None
+    try:
+        txt = open(path).read()
+    except OSError:
+        return None
+    if transient(1, txt):
+        try:
+            os.remove(path)
+        except OSError:
+            pass
+        return None
+    return txt
 
 
 def build_harness(cfgs, extra_flags=()):
@@ -144,66 +267,93 @@ def build_harness(cfgs, extra_flags=()):
         if other != sh_:
             shutil.rmtree(os.path.join(CACHE, "h", other), ignore_errors=True)
     bins = {}
-    todo = []
-    for c in cfgs:
-        b = os.path.join(d, cfg_hash(c))
-        bins[c.key()] = b
-        if not os.path.exists(b) and not os.path.exists(b + ".err"):
-            todo.append(c)
-    seen = set()
-
-    def compile_one(c):
-        b = bins[c.key()]
-        # names unique per process: several checks may build the same configuration at the same time
-        src = "%s.%d.cpp" % (b, os.getpid())
-        tmp = "%s.%d.tmp" % (b, os.getpid())
-        os.makedirs(d, exist_ok=True)
-        with open(src, "w") as f:
-            f.write('#include "harness.hpp"\nusing namespace hh;\nint main() { %s r; return r.run(std::cin); }\n' % c.cpp())
-        r = sh(["g++"] + CXXFLAGS + list(extra_flags) + [src, "-o", tmp])
-        try:
-            os.remove(src)
-        except OSError:
-            pass
-        if r.returncode != 0:
-            os.makedirs(d, exist_ok=True)
-            with open(b + ".err", "w") as f:
-                f.write(r.stdout)
-            return c, r.stdout
-        os.rename(tmp, b)
-        return c, None
-
     uniq = []
-    for c in todo:
+    seen = set()
+    for c in cfgs:
+        bins[c.key()] = os.path.join(d, cfg_hash(c))
         if c.key() not in seen:
             seen.add(c.key())
             uniq.append(c)
+
+    def compile_one(c):
+        b = bins[c.key()]
+        if os.path.exists(b):
+            return c, None, False
+        os.makedirs(d, exist_ok=True)
+        # built once: a concurrent check that wants the same configuration waits here and then finds the binary
+        with file_lock(b + ".lock"):
+            if os.path.exists(b):
+                return c, None, False
+            e = cached_error(b + ".err")
+            if e is not None:
+                return c, e, False
+            src = "%s.%d.cpp" % (b, os.getpid())
+            tmp = "%s.%d.tmp" % (b, os.getpid())
+            with open(src, "w") as f:
+                f.write('#include "harness.hpp"\nusing namespace hh;\nint main() { %s r; return r.run(std::cin); }\n' % c.cpp())
+            r = gxx(["g++"] + CXXFLAGS + list(extra_flags) + [src, "-o", tmp])
+            for junk in (src,) + ((tmp,) if r.returncode != 0 else ()):
+                try:
+                    os.remove(junk)
+                except OSError:
+                    pass
+            if r.returncode != 0:
+                if getattr(r, "transient", False):
+                    return c, r.stdout, True
+                with open(b + ".err", "w") as f:
+                    f.write(r.stdout)
+                return c, r.stdout, False
+            os.rename(tmp, b)
+            return c, None, False
+
+    # a different order in every process: concurrent checks with overlapping configurations work on different ones
+    order = list(uniq)
+    random.Random(os.getpid()).shuffle(order)
     errors = {}
     with cf.ThreadPoolExecutor(NPROC) as ex:
-        for c, err in ex.map(compile_one, uniq):
-            if err:
+        for c, err, infra in ex.map(compile_one, order):
+            if infra:
+                INFRA.append("harness for %s: compiler could not run: %s" % (c.line(), (err or "").strip()[-200:]))
+                errors[c.key()] = None
+            elif err:
                 errors[c.key()] = err
-    for c in cfgs:
-        b = bins[c.key()]
-        if os.path.exists(b + ".err") and c.key() not in errors:
-            errors[c.key()] = open(b + ".err").read()
     return bins, errors
+
+
+def run_proc(cmd, inp=None, timeout=60, env=None):
+    """run one child under a machine-wide slot (the time limit counts only while it holds the slot).  Returns (rc, out, err);
+    rc -999 = time limit exceeded twice, rc -998 = the process could not be started or was killed from outside (SIGKILL with
+    no sanitizer report: the OOM killer or an operator, not the program)"""
+    last = (-998, "", "could not start")
+    for attempt in range(3):
+        try:
+            with slot():
+                r = subprocess.run(cmd, input=inp, stdout=subprocess.PIPE, stderr=subprocess.PIPE, text=True, timeout=timeout, env=env)
+        except subprocess.TimeoutExpired as e:
+            out = e.stdout.decode(errors="replace") if isinstance(e.stdout, bytes) else (e.stdout or "")
+            last = (-999, out, "timeout")
+            if attempt >= 1:
+                return last
+            continue
+        except OSError as e:  # fork/exec failed (EAGAIN, ENOMEM)
+            last = (-998, "", "could not start: %r" % e)
+            time.sleep(1 + attempt)
+            continue
+        if r.returncode == -9 and "Sanitizer" not in r.stderr and "runtime error" not in r.stderr:
+            last = (-998, r.stdout, "killed from outside (SIGKILL)")
+            time.sleep(1 + attempt)
+            continue
+        return r.returncode, r.stdout, r.stderr
+    return last
 
 
 def run_impl(binary, lines, timeout=60):
     env = dict(os.environ, ASAN_OPTIONS="detect_leaks=0:abort_on_error=0:allocator_may_return_null=1", UBSAN_OPTIONS="print_stacktrace=0")
-    try:
-        r = subprocess.run([binary], input="\n".join(lines) + "\n", stdout=subprocess.PIPE, stderr=subprocess.PIPE, text=True,
-                           timeout=timeout, env=env)
-        return r.returncode, r.stdout, r.stderr
-    except subprocess.TimeoutExpired as e:
-        return -999, (e.stdout or b"").decode() if isinstance(e.stdout, bytes) else (e.stdout or ""), "timeout"
+    return run_proc([binary], "\n".join(lines) + "\n", timeout, env)
 
 
 def run_model(cfg, lines, timeout=60):
-    r = subprocess.run([DRIVER], input=cfg.line() + "\n" + "\n".join(lines) + "\n", stdout=subprocess.PIPE, stderr=subprocess.PIPE,
-                       text=True, timeout=timeout)
-    return r.returncode, r.stdout, r.stderr
+    return run_proc([DRIVER], cfg.line() + "\n" + "\n".join(lines) + "\n", timeout)
 
 
 def split_ops(out):
@@ -225,6 +375,7 @@ class Result:
         self.ops = 0
         self.poison_at = None
         self.threw = 0
+        self.infra = None       # the run could not be carried out (machine, not program): nothing is concluded from it
 
 
 def abort_kind(stderr):
@@ -243,6 +394,9 @@ def compare(cfg, binary, lines):
     res = Result()
     rc, out, err = run_impl(binary, lines)
     mrc, mout, merr = run_model(cfg, lines)
+    if rc == -998 or mrc in (-998, -999):
+        res.infra = "implementation run: %s" % err[-120:] if rc == -998 else "model driver run: %s" % merr[-120:]
+        return res
     gi = split_ops(out)
     gm = split_ops(mout)
     res.ops = len(gi)
